@@ -113,12 +113,15 @@ function bApiModule(B, C, k) {
 let PRISTINE_N = 0;
 // module instances cannot be unloaded: a worker that has imported this many asks to be replaced
 const PRISTINE_CAP = Number(process.env.JSIM_PRISTINE_CAP || 3000);
-async function pristine(mod) {
+async function pristine(mod, formatMeta = false) {
   // parsers built with the b API live in the runtime's global registry: there is one instance
   if (!mod.file) return mod;
   PRISTINE_N++;
   const m = await import(pathToFileURL(mod.file).href + "?pristine=" + process.pid + "_" + PRISTINE_N);
-  const P = m.default.buildParsers({ stringFormats: mod.sf, numberFormats: mod.nf });
+  // the same validators, registered in the other spelling (an object that also carries the format
+  // name to publish in JSON Schema): the registry is process-wide, the last registration wins
+  const meta = (o) => Object.fromEntries(Object.entries(o).map(([k, f]) => [k, { validator: f, jsonSchemaFormat: "published-" + k }]));
+  const P = m.default.buildParsers({ stringFormats: formatMeta ? meta(mod.sf) : mod.sf, numberFormats: formatMeta ? meta(mod.nf) : mod.nf });
   return { id: mod.id, P, names: mod.names, cache: new Map(), defNames: mod.defNames, throwing: mod.throwing };
 }
 
@@ -220,6 +223,16 @@ function genC16(mods, SPC, index) {
       if (rng.chance(1, 3)) o.edit = rng.pick(["delete", "add", "clear"]);
       ops.push(o);
     }
+    else if (rng.chance(1, 10)) {
+      // a parser of ANOTHER module into the same context, by preference one that has the name of a
+      // parser of this module (names are unique within one generated module only); executed only if
+      // it prints without collecting definitions (separately compiled modules share those names)
+      const other = rng.pick(mods);
+      if (other.id !== mod.id) {
+        const shared = other.names.filter((n) => mod.names.includes(n));
+        ops.push({ op: "foreign", module: other.id, parser: rng.pick(shared.length ? shared : other.names) });
+      }
+    }
     else if (rng.chance(1, 8)) ops.push({ op: "flat", parser: rng.pick(work) });
     else if (rng.chance(1, 12)) ops.push({ op: "edit-options", what: rng.below(4), parser: rng.pick(work) });
     else ops.push({ op: "print", parser: rng.pick(work) });
@@ -279,6 +292,29 @@ async function execC16(mods, SPC, run) {
       }
       // what the caller holds must not change under it when more is printed later
       held.push({ at: i, raw, cs: canon(raw) });
+      continue;
+    }
+    if (op.op === "foreign") {
+      const fm = mods.find((m) => m.id === op.module);
+      const FP = fm && fm.P[op.parser];
+      if (!FP) continue;
+      let ref;
+      try {
+        const fctx = mkctx(SPC, mod, cfg);
+        ref = { ok: true, cs: canon(FP.schemaWithContext(fctx)), defs: Object.keys(defsOf(fctx, cfg)).length };
+      } catch {
+        ref = { ok: false };
+      }
+      if (!ref.ok || ref.defs > 0) continue;
+      out.foreign = (out.foreign || 0) + 1;
+      let got;
+      try {
+        got = { ok: true, cs: canon(FP.schemaWithContext(ctx)) };
+      } catch (e) {
+        got = { ok: false, msg: String(e && e.message) };
+      }
+      if (!got.ok) viol("print-throws-where-fresh-context-returns", { op_index: i, foreign_module: op.module, parser: op.parser, got: got.msg });
+      else if (got.cs !== ref.cs) viol("returned-schema-differs-from-fresh-context", { op_index: i, foreign_module: op.module, parser: op.parser, got: JSON.parse(got.cs), fresh: JSON.parse(ref.cs) });
       continue;
     }
     const P = mod.P[op.parser];
@@ -1018,6 +1054,9 @@ function denseFeature(moduleId, parser) {
   return paths;
 }
 
+// the batches in other process environments only need the digests
+const LIGHT = !!process.env.JSIM_STABILITY_LIGHT;
+const USE_PROBES = [null, undefined, "", "x", "a", "b", "lit", 0, 1, 1.5, 42, -1, true, false, [], [1], ["a"], [1, "a"], ["a", 1], {}, { a: 1 }, { kind: "k0" }, { kind: "k1", n1: 1 }, { kind: 1 }, { f0: "v0" }, { f0: "v1", f1: "x" }, { value: 1 }, { v: "s" }, new Date(0), 10n, new Map([["a", 1]]), new Set(["a"]), new Uint8Array(2), new Float64Array(1)];
 // a type nested so deeply that walking it exhausts the stack (built with the b API)
 let DEEP = null;
 async function deepParser() {
@@ -1041,7 +1080,9 @@ async function execStability(mods, run) {
   const viol = (cls, detail) => {
     if (!out.violations.some((v) => v.class === cls)) out.violations.push({ property: "C13", class: cls, detail });
   };
-  const fresh = await pristine(base);
+  // the formats of this module as the first build registered them (bare functions) ...
+  await pristine(base, false);
+  let fresh = null;
   const names = base.names;
   const recorded = [];
   const cpu0 = process.cpuUsage();
@@ -1081,6 +1122,26 @@ async function execStability(mods, run) {
       }
       step(() => base.P[names[(i + 1) % names.length]].hash256());
       step(() => base.P[names[(i + 1) % names.length]].hash());
+      // other use of the same objects in between: what a process has validated, parsed, printed
+      // or described must not show in a digest
+      for (const q of LIGHT ? [] : [P, base.P[names[(i + 1) % names.length]]]) {
+        for (const val of USE_PROBES) {
+          for (const f of ["validate", "safeParse"]) {
+            try {
+              q[f](val);
+              out.usesInBetween = (out.usesInBetween || 0) + 1;
+            } catch {}
+          }
+        }
+        for (const f of ["describe", "schema"]) {
+          try {
+            q[f]();
+          } catch {}
+        }
+      }
+      // ... and, from here on, as another build of the same module in this process registered
+      // them: with the published format names
+      if (!fresh) fresh = await pristine(base, true);
       b = step(() => P.hash256());
       h32b = step(() => P.hash());
       c = step(() => fresh.P[names[i]].hash256());
@@ -1107,7 +1168,7 @@ async function execStability(mods, run) {
   // once more on another brand-new instance, in the opposite order: what a parser's hash is must
   // not depend on which parser of the module was hashed first
   if (recorded.length >= 2 && !out.budgetExceeded) {
-    const other = await pristine(base);
+    const other = await pristine(base, true);
     for (const r of [...recorded].reverse()) {
       try {
         STEPS = 0;
@@ -1134,6 +1195,7 @@ function dieWithParent() {
   w.unref();
 }
 
+let CLASS_CALLS = {};
 async function workerMain(prop) {
   dieWithParent();
   // an engine that lacks some globals (old Hermes / React Native have no TextEncoder): they are
@@ -1166,7 +1228,17 @@ async function workerMain(prop) {
       return;
     }
     if (prop === "C16") {
-      ctxs.SPC = (await rt("codegen-v2")).SchemaPrintingContext;
+      const C16RT = await rt("codegen-v2");
+      ctxs.SPC = C16RT.SchemaPrintingContext;
+      // reach probe: schema() calls per runtype class (a class stuck at zero is a gap in the workload)
+      for (const [name, cls] of Object.entries(C16RT)) {
+        if (typeof cls !== "function" || !cls.prototype || !name.endsWith("Runtype") || !Object.prototype.hasOwnProperty.call(cls.prototype, "schema")) continue;
+        const orig = cls.prototype.schema;
+        cls.prototype.schema = function (...a) {
+          CLASS_CALLS[name] = (CLASS_CALLS[name] || 0) + 1;
+          return orig.apply(this, a);
+        };
+      }
       ctxs.mods = await loadModules();
       if (!ctxs.mods.length) throw new Error("no module could be loaded");
     } else {
@@ -1181,6 +1253,8 @@ async function workerMain(prop) {
           const run = m.run ?? genC16(ctxs.mods, ctxs.SPC, m.index);
           process.send({ start: m.index, run });
           result = await execC16(ctxs.mods, ctxs.SPC, run);
+          result.classCalls = CLASS_CALLS;
+          CLASS_CALLS = {};
           if (result.violations.length || m.index < 3) result.run = run;
           if (PRISTINE_N >= PRISTINE_CAP) {
             process.send({ index: m.index, result, recycle: true });
@@ -1360,12 +1434,14 @@ async function main() {
       agg.exports += r.exports || 0;
       agg.flat = (agg.flat || 0) + (r.flat || 0);
       agg.exportEdits = (agg.exportEdits || 0) + (r.exportEdits || 0);
+      agg.foreign = (agg.foreign || 0) + (r.foreign || 0);
       agg.optionEdits = (agg.optionEdits || 0) + (r.optionEdits || 0);
       agg.writes += r.writes || 0;
       agg.bytes += r.bytes || 0;
       agg.siblings = (agg.siblings || 0) + (r.siblings || 0);
       agg.refs += r.refs || 0;
       agg.defs += r.defs || 0;
+      if (r.classCalls) for (const [k, v] of Object.entries(r.classCalls)) (agg.classCalls ??= {})[k] = (agg.classCalls[k] || 0) + v;
       if (r.overrides) agg.overrides++;
       if (r.pristine) agg.pristine = (agg.pristine || 0) + 1;
       if (r.crossedBlock) agg.crossed++;
@@ -1454,6 +1530,7 @@ async function main() {
         stability.step_tap = !!r.stepTap;
         stability.calls_over_budget = (stability.calls_over_budget || 0) + (r.budgetExceeded || 0);
         stability.parsers_left_out_after_4s_of_cpu_on_their_module = (stability.parsers_left_out_after_4s_of_cpu_on_their_module || 0) + (r.cutShort || 0);
+        stability.validate_and_safeParse_calls_in_between = (stability.validate_and_safeParse_calls_in_between || 0) + (r.usesInBetween || 0);
         stability.calls_that_died_of_stack_exhaustion_in_between = (stability.calls_that_died_of_stack_exhaustion_in_between || 0) + (r.deepThrows || 0);
         baseDigests.set(i, r.digests || {});
         for (const v of r.violations) if (!agg.viol.has(v.class)) agg.viol.set(v.class, { index: -3, v, run: { ...r.run, ops: [{ op: "hash256-stability" }] } });
@@ -1463,7 +1540,7 @@ async function main() {
       // the same digests.
       if (!st.length) {
         stability.other_process_environments = [];
-        for (const env of [{ LC_ALL: "sv_SE.UTF-8", LANG: "sv_SE.UTF-8", TZ: "Pacific/Kiritimati" }, { LC_ALL: "cs_CZ.UTF-8", LANG: "cs_CZ.UTF-8", TZ: "America/St_Johns" }]) {
+        for (const env of [{ LC_ALL: "sv_SE.UTF-8", LANG: "sv_SE.UTF-8", TZ: "Pacific/Kiritimati", JSIM_STABILITY_LIGHT: "1" }, { LC_ALL: "cs_CZ.UTF-8", LANG: "cs_CZ.UTF-8", TZ: "America/St_Johns", JSIM_STABILITY_LIGHT: "1" }]) {
           let compared = 0;
           await pool(SELF, ["C13S"], Array.from({ length: nMods }, (_, i) => i), workers, (i, r) => {
             const want = baseDigests.get(i) || {};
@@ -1560,9 +1637,11 @@ async function main() {
             export_calls: agg.exports,
             flat_schema_calls_interleaved: agg.flat || 0,
             exports_edited_by_the_caller: agg.exportEdits || 0,
+            parsers_of_another_module_printed_into_the_context: agg.foreign || 0,
             options_object_edited_after_construction: agg.optionEdits || 0,
             runs_with_overrides: agg.overrides,
             runs_on_brand_new_module_instances: agg.pristine || 0,
+            schema_calls_per_runtype_class: agg.classCalls || {},
             refs_resolved: agg.refs,
             definitions_compared: agg.defs,
             distinct_sequences: agg.sigs.size,
